@@ -99,7 +99,8 @@ structure Cfg where
   f9Fixed : Bool := true         -- `return` present in handle_req_chunk_size_line_no_space
   allocBypassFixed : Bool := true
   epollBypassFixed : Bool := true
-  f14Fixed : Bool := true
+  f14Fixed : Bool := true         -- completion notified before the request strings are released …
+  f14ClearsAware : Bool := true   -- … and client_aware cleared afterwards
   deriving DecidableEq, Repr, Inhabited
 
 /-- what the API permits the handler to do -/
@@ -243,7 +244,8 @@ def errResp : Resp := { rid := 1000, freeCb := false, body := true }
 def releaseEverything {σ} (cfg : Cfg) (c : Conn σ) : Out σ :=
   if cfg.f14Fixed then
     let (c1, l1) := notify c terminatedWithError
-    (c1, l1 ++ [.invalidate])
+    -- (without the assignment `rq.client_aware = false` the flag survives the callback)
+    ({ c1 with clientAware := if cfg.f14ClearsAware then false else c.clientAware }, l1 ++ [.invalidate])
   else (c, [.invalidate])
 
 /-- transmit_error_response_len -/
